@@ -4,11 +4,18 @@
    template graphs the statement prescribes (Expected(M)): every location in order under its name or id-derived name, every
    branchpoint, the initial location named by the init reference, every edge with source and target resolved through the id
    references - nothing added, dropped, duplicated or attached to another template; the builder's scopes are balanced and it
-   reports nothing.  (Labels and declarations are text blocks handed to the grammar: LR.tla / C02; the system block's
-   instantiations: Builder.tla / C08.)                                                                                *)
+   reports nothing.
+   The parameter lists and the system block are text blocks: where the reader hands them to the grammar, the token string that
+   denotes them is parsed by LR.tla - the bison automaton extracted from the working tree's parser.y - and the callbacks it
+   emits (decl_parameter; instantiation_begin / instantiation_end with their counts; process) go to the transcribed builder.
+   MirrorDesign then also demands the statement's instances and processes: name, template, parameter list (own parameters
+   first, then the inherited ones), number of unbound parameters, and exactly the inherited parameters bound.
+   (Labels and declarations stay opaque here: LR.tla / C02 / C16.)                                                    *)
 EXTENDS DocGen
 R == INSTANCE XmlReaderOps
 B == INSTANCE Builder
+L == INSTANCE LR
+D == INSTANCE BuilderDepth
 
 NoAttr == <<>>
 El(tag, attrs, empty) == [ty |-> "elem", tag |-> tag, empty |-> empty, attrs |-> attrs, txt |-> ""]
@@ -36,13 +43,73 @@ TemplEv(t) == <<El("template", NoAttr, FALSE)>> \o TextEl("name", NoAttr, t.name
 XmlEvents(r) == <<El("nta", NoAttr, FALSE)>> \o TextEl("declaration", NoAttr, "globals") \o Cat([t \in 1..Len(r.templs) |-> TemplEv(r.templs[t])])
                 \o TextEl("system", NoAttr, "system") \o <<En("nta", NoAttr)>>
 
-(* the reader's callbacks, as events of Builder!Apply *)
+(* ---- token strings of the text blocks that carry structure *)
+K(tk) == L!Tok(tk, 0, "")
+Id(s) == L!Tok("T_ID", 0, s)
+Ty(s) == L!Tok("T_TYPENAME", 0, s)
+Nt(n) == L!Tok("T_NAT", n, "")
+Rng(lo, hi) == <<K("'['"), Nt(lo), K("','"), Nt(hi), K("']'")>>
+ParamToks == << <<K("T_INT"), Id("p")>>,                                   \* int p
+                <<K("T_CONST"), Ty("id_t"), Id("w")>>,                     \* const id_t w
+                <<K("T_INT"), K("'&'"), Id("r")>>,                         \* int &r
+                <<K("T_CLOCK"), K("'&'"), Id("y")>>,                       \* clock &y
+                <<K("T_INT")>> \o Rng(0, 1) \o <<Id("e")>>,                \* int[0,1] e
+                <<K("T_CHAN"), K("'&'"), Id("d")>>,                        \* chan &d
+                <<K("T_CONST"), K("T_INT"), Id("q")>> >>                   \* const int q
+OwnToks == << <<K("T_CONST"), K("T_INT")>> \o Rng(0, 1) \o <<Id("v")>>,     \* const int[0,1] v
+              <<K("T_INT")>> \o Rng(0, 2) \o <<Id("u")>> >>                \* int[0,2] u
+ArgToks(txt) == CASE txt = "1" -> <<Nt(1)>>
+                  [] txt = "N + 1" -> <<Id("N"), K("T_PLUS"), Nt(1)>>
+                  [] txt = "a[1]" -> <<Id("a"), K("'['"), Nt(1), K("']'")>>
+                  [] OTHER -> <<Id(txt)>>                                   \* N, i, j, x, c, and forwarded own parameters v, u
+ASSUME Len(ParamToks) = Len(ParamPool) /\ Len(OwnToks) = Len(OwnPool)
+RECURSIVE Sep(_, _, _)
+Sep(lists, sep, i) == IF i > Len(lists) THEN <<>> ELSE (IF i > 1 THEN <<sep>> ELSE <<>>) \o lists[i] \o Sep(lists, sep, i + 1)
+ParamString(tt) == Sep([q \in 1..Len(tt.params) |-> ParamToks[tt.params[q]]], K("','"), 1)
+InstString(ins) == <<Id(ins.name)>> \o (IF ins.own = <<>> THEN <<>> ELSE <<K("'('")>> \o Sep([q \in 1..Len(ins.own) |-> OwnToks[ins.own[q]]], K("','"), 1) \o <<K("')'")>>)
+                   \o <<K("T_ASSIGNMENT"), Id(ins.base), K("'('")>> \o Sep([q \in 1..Len(ins.args) |-> ArgToks(ins.args[q])], K("','"), 1) \o <<K("')'"), K("';'")>>
+RECURSIVE ProcString(_, _)
+ProcString(mm, i) == IF i > Len(mm.procs) THEN <<>>
+                     ELSE (IF i > 1 THEN <<IF mm.seps[i - 1] = "<" THEN K("T_LT") ELSE K("','")>> ELSE <<>>) \o <<Id(mm.procs[i])>> \o ProcString(mm, i + 1)
+(* lib/docgen.py system_text: `typedef int[0,1] sys_t; int sysv;`, the instantiations, the process list *)
+SystemString(mm) == <<K("T_TYPEDEF"), K("T_INT")>> \o Rng(0, 1) \o <<Id("sys_t"), K("';'"), K("T_INT"), Id("sysv"), K("';'")>>
+                    \o Cat([q \in 1..Len(mm.insts) |-> InstString(mm.insts[q])])
+                    \o <<K("T_SYSTEM")>> \o ProcString(mm, 1) \o <<K("';'")>>
+
+(* the callbacks of the grammar, as events of Builder!Apply *)
+FromGrammar(o) ==
+    CASE o.cb = "decl_parameter" -> <<[cb |-> "decl_parameter", a |-> o.a[1].s, b |-> "", n |-> 0]>>
+      [] o.cb = "instantiation_begin" -> <<[cb |-> "instantiation_begin", a |-> o.a[1].s, b |-> o.a[3].s, n |-> o.a[2].n]>>
+      [] o.cb = "instantiation_end" -> <<[cb |-> "instantiation_end", a |-> o.a[1].s, b |-> o.a[3].s, n |-> o.a[4].n]>>
+      [] o.cb = "process" -> <<[cb |-> "process", a |-> o.a[1].s, b |-> "", n |-> 0]>>
+      [] o.cb = "handle_error" -> <<[cb |-> "grammar_error", a |-> "", b |-> "", n |-> 0]>>
+      [] OTHER -> <<>>
+RECURSIVE FeedGrammar(_, _, _)
+FeedGrammar(b, out, i) ==
+    IF i > Len(out) THEN b
+    ELSE LET evs == FromGrammar(out[i]) IN
+         FeedGrammar(IF evs = <<>> THEN b ELSE IF evs[1].cb = "grammar_error" THEN B!Err(b) ELSE B!Apply(b, evs[1]), out, i + 1)
+(* a block must be accepted, and its callbacks must leave the builder's expression / type / frame stacks where they were
+   (BuilderDepth: the stack discipline C16 rests on) *)
+GrammarBlock(b, start, toks) ==
+    LET p == L!Parse(start, toks)
+        d == D!Depths(p.out) IN
+    IF p.mode # "accept" \/ p.nerr # 0 \/ d.f # 0 \/ d.t # 0 \/ d.fr # 0 \/ d.under \/ d.unknown # "" THEN B!Err(b) ELSE FeedGrammar(b, p.out, 1)
+
+(* the reader's callbacks, as events of Builder!Apply; `parse` events stand for the text blocks *)
 Structural == {"proc_begin", "proc_end", "proc_location", "proc_branchpoint", "proc_location_init", "proc_edge_begin", "proc_edge_end"}
 ToBuilder(o) == [cb |-> o.n, a |-> IF o.n = "proc_edge_begin" THEN o.x ELSE o.a, b |-> o.y, n |-> 0]
-RECURSIVE Feed(_, _, _)
-Feed(b, out, i) == IF i > Len(out) THEN b
-                   ELSE IF out[i].e = "cb" /\ out[i].n \in Structural THEN Feed(B!Apply(b, ToBuilder(out[i])), out, i + 1) ELSE Feed(b, out, i + 1)
-Built(mm) == LET run == R!Project([id |-> "m", events |-> XmlEvents(Resolved(mm))]) IN [reader |-> run, b |-> Feed(B!Init0, run.out, 1)]
+RECURSIVE Feed(_, _, _, _)
+Feed(mm, b, out, i) ==
+    IF i > Len(out) THEN b
+    ELSE LET o == out[i] IN
+         IF o.e = "cb" /\ o.n \in Structural THEN Feed(mm, B!Apply(b, ToBuilder(o)), out, i + 1)
+         ELSE IF o.e = "cb" /\ o.n = "parse" /\ o.a = "S_PARAMETERS"
+              THEN Feed(mm, GrammarBlock(b, "T_NEW_PARAMETERS", ParamString(mm.templs[Len(b.templs) + 1])), out, i + 1)      \* the parameter element precedes proc_begin of its template
+         ELSE IF o.e = "cb" /\ o.n = "parse" /\ o.a = "S_SYSTEM"
+              THEN Feed(mm, GrammarBlock(b, "T_NEW_SYSTEM", SystemString(mm)), out, i + 1)
+         ELSE Feed(mm, b, out, i + 1)
+Built(mm) == LET run == R!Project([id |-> "m", events |-> XmlEvents(Resolved(mm))]) IN [reader |-> run, b |-> Feed(mm, B!Init0, run.out, 1)]
 
 (* what the statement prescribes for the template graphs *)
 Graph(e) == [templs |-> [t \in 1..Len(e.templates) |->
@@ -57,8 +124,17 @@ GraphOfBuilder(b) == [templs |-> [t \in 1..Len(b.templs) |->
                  init |-> IF b.templs[t].init = B!NoSym THEN "" ELSE b.templs[t].init.name,
                  edges |-> [q \in 1..Len(b.templs[t].edges) |-> [nr |-> b.templs[t].edges[q].nr, src |-> b.templs[t].edges[q].src.name, dst |-> b.templs[t].edges[q].dst.name,
                                                                  t |-> IF b.templs[t].edges[q].src.t = b.templs[t].edges[q].dst.t THEN b.templs[t].edges[q].src.t ELSE 0]]]]]
+(* instances and processes: what the statement prescribes / what the builder holds *)
+InstOfBuilder(b, i) == [name |-> i.name, templ |-> b.templs[i.templ].name, params |-> [q \in 1..Len(i.params) |-> i.params[q].name], unbound |-> i.unbound,
+                        bound |-> [q \in 1..Len(i.params) |-> i.params[q].id \in i.mapping]]
+InstExpected(x) == [name |-> x.name, templ |-> x.templ, params |-> x.params, unbound |-> x.unbound, bound |-> [q \in 1..Len(x.params) |-> q > x.unbound]]
+SystemOfBuilder(b) == [instances |-> [k \in 1..Len(b.insts) |-> InstOfBuilder(b, b.insts[k])],
+                       processes |-> [k \in 1..Len(b.procs) |-> [InstOfBuilder(b, b.procs[k]) EXCEPT !.name = b.procs[k].name]]]
+SystemExpected(e) == [instances |-> [k \in 1..Len(e.instances) |-> InstExpected(e.instances[k])],
+                      processes |-> [k \in 1..Len(e.processes) |-> InstExpected(e.processes[k])]]
 MirrorDesign == phase = "done" =>
     LET r == Built(m) IN
+    /\ SystemOfBuilder(r.b) = SystemExpected(Expected(m))
     /\ r.reader.exc = "" /\ r.reader.fuel > 0                          \* the reader returns
     /\ r.b.nerr = 0 /\ r.b.frames = <<"g">> /\ r.b.curT = 0            \* the builder reports nothing and is back in the global scope
     /\ B!DocInv(r.b)
